@@ -8,7 +8,7 @@ loop exits nothing is computable, ongoing or unfetched. The liveness clauses (pr
 rounds, all tasks completed at exit) hold only under FIFO delivery on the pinned tree
 (known finding C03-last-output-overtakes) and are checked by the watchdog oracle of the check.
 -/
-import EkwVerif.Lemmas.SchedAll
+import EkwVerif.Lemmas.SchedProgress
 
 namespace EkwVerif.Ctrl
 
@@ -92,5 +92,17 @@ theorem c03_done_partial (f : Sem) (j : Job) (cl : Cluster) (cm : Comps) (wf : W
   have hd := sF_done f j cl cm x hr wf hfin t ht
   have hR := sF_reachable_base f j cl cm x hr
   exact ⟨hd, aux_done_ran_once f j cl wf x.sys hR t hd⟩
+
+/-- **Progress — under FIFO delivery.** An iteration of the controller loop entered with something
+computable and nothing ongoing (so: nothing to wait for) dispatches at least one task before
+`assign()` returns, on every feasible cluster, whatever the heuristics choose and whatever the
+executors do meanwhile: the controller never spins without issuing a command. (`ProgressStmt`,
+`Lemmas/SchedProgressDefs.lean`; FIFO is needed on the pinned tree: known finding.) -/
+theorem c03_progress_partial (f : Sem) (j : Job) (cl : Cluster) (cm : Comps) (wf : WF j cl) (wfc : WFC j cm)
+    (feas : Feasible j cl) (x x1 x2 : SysX) (hr : ReachableFifo f j cl cm x) (htop : x.sys.phase = .top)
+    (hc : x.sys.ctl.hasComputable = true) (ho : x.sys.ctl.ongoing = [])
+    (he : stepX f j cl cm x (.base .enter) = some x1) (hs : AssignStar f j cl cm x1 x2)
+    (hp : x2.sys.phase = .planning) : x2.sys.todo ≠ [] :=
+  sP_progress f j cl cm wf wfc feas x x1 x2 hr htop hc ho he hs hp
 
 end EkwVerif.Ctrl
